@@ -20,8 +20,9 @@ RULE = (
     "user type, later ones included; elementType; multipleReferencesAllowed None/true/false; features self/type/self_; "
     "descriptions None, empty, blank, padded, non-ASCII, with markup characters; features added to DocumentAnnotation; in "
     "20% a DocumentAnnotation of the type system's own -- TypeSystem(add_document_annotation_type=False) + create_type at any "
-    "admissible place, own description and supertype, own features: none at all (~45% of them), with or without "
-    "`language`, `language` of any range -- which is also what the harness-written descriptors then redeclare) "
+    "admissible place, own description and supertype, own features: none at all (a third of them), with or without "
+    "`language`, `language` of any range; a quarter of them nearly the implicit one: only a feature `language`, differing "
+    "in 0-3 of description, supertype, range, flag, element type, feature description -- which is also what the harness-written descriptors then redeclare) "
     "built through the API in a shuffled create_feature order. Per type system: to_xml() lifted with xml.etree and "
     "compared with the model; the round trip load(to_xml()); and three descriptors written by the harness's own writer "
     "from a pool of declarations (identity order; a random permutation with identically / acceptably redeclared "
@@ -49,8 +50,7 @@ TRUSTED = [
 ]
 ASSUMPTIONS = [
     "the type system has a DocumentAnnotation (the TypeSystem() default, possibly extended, or one created by the user on "
-    "TypeSystem(add_document_annotation_type=False)); an own DocumentAnnotation whose only feature is named `language` "
-    "must be the default one (the writer leaves it out, docann_okb); type names are unique, non-empty, trimmed",
+    "TypeSystem(add_document_annotation_type=False), declared in any way); type names are unique, non-empty, trimmed",
     "no feature is declared again along a supertype chain; references are closed; no inheritance from final array types",
     "identifiers and descriptions do not begin or end with non-ASCII white space; descriptions survive up to strip() and \"\" = absent",
     "every typeDescription has a name with text, and (general theorems) the names are distinct after trimming",
@@ -156,25 +156,43 @@ def _da_feats(sc):
     return ([] if sc.get("own") else [LANG]) + sc["da"]
 
 
-def _own_ok(sc):
-    """a DocumentAnnotation of the type system's own whose only feature is called `language` is left out by the writer like
-    the default one (ASSUMPTIONS): not generated, not shrunk to"""
-    return not sc.get("own") or [f["n"] for f in sc["da"]] != ["language"]
+def _da_default(sc):
+    """the DocumentAnnotation of the scenario is declared exactly like the implicitly added one (the only one the writer
+    may leave out): no description, supertype Annotation, one feature language : String and nothing else"""
+    own = sc.get("own")
+    return (not own or (own["d"] is None and own["s"] == ANN)) and _da_feats(sc) == [LANG]
 
 
 def _gen_own(rng, types, names):
     """A DocumentAnnotation that the type system declares itself (TypeSystem(add_document_annotation_type=False) +
-    create_type): its own description and supertype, its own features -- none at all in a good third of the cases, with or
-    without `language`, `language` anywhere and of any range.  `at` = how many user types are created before it."""
+    create_type): its own description and supertype, its own features -- none at all in a third of the cases, with or
+    without `language`, `language` anywhere and of any range.  In a quarter it is NEARLY the implicit one: only a feature
+    `language`, and zero to three differences among description, supertype, range, flag, element type, description of
+    the feature (zero: declared exactly like the implicit one).  `at` = how many user types are created before it."""
     first = min([i for i, t in enumerate(types) if t["s"] == DOCANN] or [len(types)])
+    at = rng.randint(0, first)
+    if rng.random() < 0.25:
+        own, f = {"d": None, "s": ANN, "at": at}, dict(LANG)
+        for how in rng.sample(["d", "s", "r", "m", "e", "fd"], rng.choice([0, 1, 1, 1, 2, 3])):
+            if how == "d":
+                own["d"] = rng.choice([d for d in DESCRS if d is not None])
+            elif how == "s":
+                own["s"] = rng.choice(["uima.cas.AnnotationBase", "uima.cas.TOP"])
+            elif how == "r":
+                f["r"] = rng.choice(["uima.cas.Integer", "uima.cas.Integer", "uima.cas.StringArray", ANN] + names)
+            elif how == "m":
+                f["m"] = rng.choice([True, False])
+            elif how == "e":
+                f["e"] = rng.choice(["uima.cas.TOP", ANN])
+            else:
+                f["d"] = rng.choice([d for d in DESCRS if d is not None])
+        return own, [f]
     taken, feats = set(), []
     for _ in range(rng.choice([0, 0, 0, 1, 1, 2, 3])):
         f = _gen_feat(rng, names, taken, names)
         if f:
             feats.append(f)
-    if [f["n"] for f in feats] == ["language"]:
-        feats = []
-    return {"d": rng.choice(DESCRS), "s": rng.choice(OWN_SUPERS), "at": rng.randint(0, first)}, feats
+    return {"d": rng.choice(DESCRS), "s": rng.choice(OWN_SUPERS), "at": at}, feats
 
 
 def _gen_ts(rng, big=False, own=False):
@@ -723,7 +741,7 @@ def oracle(cassis, sc, obs):
             return "permuted-bytes: the same declarations in another order re-emit to different bytes"
         by_sel[key] = r["x"]
         if sorted(i for i in sel if i < nuser) == list(range(nuser)) and not [i for i in sel if i >= nuser]:
-            if _clean(sc) and (sc["da"] or sc.get("own") or not sc["declare_da"]) and r["x"] != obs["x"]:
+            if _clean(sc) and (not _da_default(sc) or not sc["declare_da"]) and r["x"] != obs["x"]:
                 return "permuted-bytes: a permutation of the descriptor re-emits to other bytes than to_xml(ts)"
     return None
 
@@ -928,7 +946,7 @@ def shrink_candidates(sc):
         c = json.loads(json.dumps(sc))
         del c["da"][j]
         c["seq"] = [[t2["n"], k] for t2 in c["types"] for k in range(len(t2["f"]))] + [[DOCANN, k] for k in range(len(c["da"]))]
-        if (not c["da"] and not c["declare_da"]) or not _own_ok(c):
+        if not c["da"] and not c["declare_da"]:
             continue
         yield c
     if len(sc["runs"]) > 1:
@@ -998,6 +1016,9 @@ def distribution(scenarios, observations):
             "docann_own_without_features": sum(1 for s in ts if s.get("own") and not s["da"]),
             "docann_own_without_language": sum(1 for s in ts if s.get("own") and s["da"]
                                                and "language" not in [f["n"] for f in s["da"]]),
+            "docann_own_only_language_not_default": sum(1 for s in ts if s.get("own") and not _da_default(s)
+                                                        and [f["n"] for f in s["da"]] == ["language"]),
+            "docann_own_exactly_default": sum(1 for s in ts if s.get("own") and _da_default(s)),
             "padded": sum(1 for s in ts if s["pad"]),
             "runs_rejected": sum(1 for r in runs if r["res"] != "ok"),
             "runs_with_builtins": sum(1 for s in ts for sel in s["runs"]
